@@ -131,6 +131,8 @@ def typed_ok(param, raw, result, program=None):
     if isinstance(param, P.ResultParameter):
         return None if isinstance(result, Command) else "result-not-a-command"
     if isinstance(param, P.ListParameter):
+        if isinstance(raw, dict):
+            return "key-value-pairs-accepted-as-list"      # what the [k: v] syntax delivers is a tuple argument, not a list
         if not isinstance(result, list):
             return "list-not-list"
         if isinstance(raw, (list, tuple)) and len(result) != len(raw):
